@@ -326,7 +326,7 @@ def check(prop, tier):
     # search for a failing input when a tie or an obligation is broken but nothing failed yet
     search_note = None
     if broken and not violations and cfg.get("corr"):
-        fams = ["mixed", "burst", "handles", "idle", "timeouts", "shutdown", "eager", "flood"]
+        fams = ["mixed", "burst", "handles", "idle", "timeouts", "shutdown", "eager", "flood", "abandon"]
         rep, tr = run_corr(prop, seed + 7777, 3000 if thorough else 1200, fams, tag="_search")
         fails, perr, summ = run_monitors(prop, tr, cfg["monitors"])
         search_note = f"search: {rep['scripts']} further scripts over all families under monitors {cfg['monitors']}: {len(fails)} monitor failure(s)"
